@@ -1,8 +1,8 @@
 (* C07, generator side of RoundTripX: for every expression of the language [ex] the generator MODEL
-   (Generator.visit: visit_ID, visit_BinaryOp, visit_UnaryOp, visit_ArrayRef, visit_StructRef,
-   visit_TernaryOp, visit_Assignment with _parenthesize_unless_simple / _parenthesize_if / _visit_expr)
-   prints [ptext rp e], and that text is the concatenation of the spellings of the token sequence
-   [xt rp e] with the blanks the generator puts around binary / assignment operators, ? and :. *)
+   (Generator.visit: visit_ID, visit_Constant, visit_BinaryOp, visit_UnaryOp, visit_ArrayRef,
+   visit_StructRef, visit_FuncCall, visit_TernaryOp, visit_Assignment, visit_ExprList with
+   _parenthesize_unless_simple / _parenthesize_if / _visit_expr) prints [ptext rp e], and that text,
+   blanks removed, is the concatenation of the spellings of the token sequence [xt rp e]. *)
 From Coq Require Import String.
 From Coq Require Import List NArith ZArith Bool Arith Lia.
 Import ListNotations.
@@ -18,29 +18,38 @@ Notation node := (value C).
 Fixpoint embC (e: ex) : node :=
   match e with
   | XId a => VNode C_ID [VStr a] None
+  | XConst _ v ty => VNode C_Constant [VStr ty; VStr v] None
   | XBin o l r => VNode C_BinaryOp [VStr o; embC l; embC r] None
   | XUn o x => VNode C_UnaryOp [VStr o; embC x] None
   | XIdx b i => VNode C_ArrayRef [embC b; embC i] None
   | XMem b ty f => VNode C_StructRef [embC b; VStr ty; VNode C_ID [VStr f] None] None
+  | XCall b args => VNode C_FuncCall [embC b; match args with [] => VNone | _ => VNode C_ExprList [VList (map embC args)] None end] None
   | XCond c t f => VNode C_TernaryOp [embC c; embC t; embC f] None
   | XAsg o l r => VNode C_Assignment [VStr o; embC l; embC r] None
+  | XComma es => VNode C_ExprList [VList (map embC es)] None
   end.
 
-Definition wrapt (e: ex) (t: str) : str := if simple e then t else par t.
+Definition vxt (e: ex) (t: str) : str := if iscomma e then par t else t.       (* _visit_expr *)
+Definition wrapt (e: ex) (t: str) : str := if simple e then t else par (vxt e t).
 Fixpoint ptext (e: ex) : str :=
   match e with
   | XId a => a
+  | XConst _ v _ => v
   | XBin o l r =>
-    (if simple l || keepLx rp o l then ptext l else par (ptext l)) ++ s " " ++ o ++ s " " ++
-    (if simple r || keepRx rp o r then ptext r else par (ptext r))
+    (if simple l || keepLx rp o l then ptext l else par (vxt l (ptext l))) ++ s " " ++ o ++ s " " ++
+    (if simple r || keepRx rp o r then ptext r else par (vxt r (ptext r)))
   | XUn o x => o ++ wrapt x (ptext x)
   | XIdx b i => wrapt b (ptext b) ++ s "[" ++ ptext i ++ s "]"
   | XMem b ty f => wrapt b (ptext b) ++ ty ++ f
-  | XCond c t f => s "(" ++ ptext c ++ s ") ? (" ++ ptext t ++ s ") : (" ++ ptext f ++ s ")"
-  | XAsg o l r => ptext l ++ s " " ++ o ++ s " " ++ (if isasg r then par (ptext r) else ptext r)
+  | XCall b args => wrapt b (ptext b) ++ s "(" ++ join_str (s ", ") (map (fun a => vxt a (ptext a)) args) ++ s ")"
+  | XCond c t f => s "(" ++ vxt c (ptext c) ++ s ") ? (" ++ vxt t (ptext t) ++ s ") : (" ++ vxt f (ptext f) ++ s ")"
+  | XAsg o l r => ptext l ++ s " " ++ o ++ s " " ++ (if isasg r then par (ptext r) else vxt r (ptext r))
+  | XComma es => join_str (s ", ") (map (fun a => vxt a (ptext a)) es)
   end.
 
 (* ---- one-step equations of the generator model (by computation against Generator.v) ---- *)
+Lemma visit_const : forall f v ty co st, visit C rp (S f) (VNode C_Constant [VStr ty; VStr v] co) st = GOk (v, st).
+Proof. reflexivity. Qed.
 Lemma visit_un_raw : forall f o x co,
   visit C rp (S f) (VNode C_UnaryOp [VStr o; x] co) =
   (if str_eqb o (s "sizeof") then gbind (visit C rp f x) (fun t => gret (s "sizeof(" ++ t ++ s ")"))
@@ -56,6 +65,15 @@ Lemma visit_mem : forall f b ty fl co,
   visit C rp (S f) (VNode C_StructRef [b; VStr ty; fl] co) =
   gbind (paren_unless_simple C rp f b) (fun a => gbind (visit C rp f fl) (fun t => gret (a ++ ty ++ t))).
 Proof. reflexivity. Qed.
+Lemma visit_call : forall f b ar co,
+  visit C rp (S f) (VNode C_FuncCall [b; ar] co) =
+  gbind (paren_unless_simple C rp f b) (fun a =>
+  gbind (match ar with VNone => gret [] | _ => visit C rp f ar end) (fun t => gret (a ++ s "(" ++ t ++ s ")"))).
+Proof. reflexivity. Qed.
+Lemma visit_exprlist : forall f es co,
+  visit C rp (S f) (VNode C_ExprList [VList es] co) =
+  gbind (mapM (visit_expr C rp f) es) (fun xs => gret (join_str (s ", ") xs)).
+Proof. reflexivity. Qed.
 Lemma visit_ternary : forall f c t e co,
   visit C rp (S f) (VNode C_TernaryOp [c; t; e] co) =
   gbind (visit_expr C rp f c) (fun a => gbind (visit_expr C rp f t) (fun b => gbind (visit_expr C rp f e) (fun c1 =>
@@ -70,12 +88,19 @@ Lemma pus_eq : forall f n, paren_unless_simple C rp (S f) n =
   gbind (visit_expr C rp f n) (fun x => if is_simple C n then gret x else gret (s "(" ++ x ++ s ")")).
 Proof. reflexivity. Qed.
 
-Lemma visit_expr_emb : forall f e, visit_expr C rp (S f) (embC e) = visit C rp f (embC e).
+(* _visit_expr: a comma expression gets parentheses, everything else is visited as it is *)
+Lemma visit_expr_emb : forall f e, visit_expr C rp (S f) (embC e) =
+  if iscomma e then gbind (visit C rp f (embC e)) (fun x => gret (s "(" ++ x ++ s ")")) else visit C rp f (embC e).
 Proof. intros f e. destruct e; reflexivity. Qed.
 Lemma is_simple_emb : forall e, is_simple C (embC e) = simple e.
 Proof. destruct e; reflexivity. Qed.
 Lemma is_asg_emb : forall e, is_c C C_Assignment (embC e) = isasg e.
 Proof. destruct e; reflexivity. Qed.
+
+Lemma vexpr_emb : forall f e t st, visit C rp f (embC e) st = GOk (t, st) -> visit_expr C rp (S f) (embC e) st = GOk (vxt e t, st).
+Proof.
+  intros f e t st H. rewrite visit_expr_emb. unfold vxt, par. destruct (iscomma e); [|exact H]. unfold gbind. rewrite H. reflexivity.
+Qed.
 
 Lemma cond_left_x : forall o l st, prec_lookup_s o <> None -> wf l ->
   GenBinop.cond C rp o false (embC l) st = GOk (negb (simple l || keepLx rp o l), st).
@@ -89,6 +114,7 @@ Proof.
   - cbn [simple orb keepLx embC]. change (is_c C C_BinaryOp (VNode C_UnaryOp [VStr o0; embC l] None)) with false. rewrite andb_false_r. reflexivity.
   - cbn [simple orb keepLx embC]. change (is_c C C_BinaryOp (VNode C_TernaryOp [embC l1; embC l2; embC l3] None)) with false. rewrite andb_false_r. reflexivity.
   - cbn [simple orb keepLx embC]. change (is_c C C_BinaryOp (VNode C_Assignment [VStr o0; embC l1; embC l2] None)) with false. rewrite andb_false_r. reflexivity.
+  - cbn [simple orb keepLx embC]. change (is_c C C_BinaryOp (VNode C_ExprList [VList (map embC es)] None)) with false. rewrite andb_false_r. reflexivity.
 Qed.
 Lemma cond_right_x : forall o r st, prec_lookup_s o <> None -> wf r ->
   GenBinop.cond C rp o true (embC r) st = GOk (negb (simple r || keepRx rp o r), st).
@@ -102,6 +128,7 @@ Proof.
   - cbn [simple orb keepRx embC]. change (is_c C C_BinaryOp (VNode C_UnaryOp [VStr o0; embC l] None)) with false. rewrite andb_false_r. reflexivity.
   - cbn [simple orb keepRx embC]. change (is_c C C_BinaryOp (VNode C_TernaryOp [embC l1; embC l2; embC l3] None)) with false. rewrite andb_false_r. reflexivity.
   - cbn [simple orb keepRx embC]. change (is_c C C_BinaryOp (VNode C_Assignment [VStr o0; embC l1; embC l2] None)) with false. rewrite andb_false_r. reflexivity.
+  - cbn [simple orb keepRx embC]. change (is_c C C_BinaryOp (VNode C_ExprList [VList (map embC es)] None)) with false. rewrite andb_false_r. reflexivity.
 Qed.
 
 (* the spelling of a prefix operator is not one of the three special op strings of UnaryOp *)
@@ -118,34 +145,71 @@ Qed.
 Lemma pus_emb : forall f e t st, visit C rp f (embC e) st = GOk (t, st) ->
   paren_unless_simple C rp (S (S f)) (embC e) st = GOk (wrapt e t, st).
 Proof.
-  intros f e t st H. rewrite pus_eq. unfold gbind at 1. rewrite visit_expr_emb. rewrite H. rewrite is_simple_emb.
-  unfold wrapt, par. destruct (simple e); reflexivity.
+  intros f e t st H. rewrite pus_eq. unfold gbind at 1. rewrite (vexpr_emb f e t st H). rewrite is_simple_emb.
+  unfold wrapt, vxt, par. destruct (simple e) eqn:Es.
+  - destruct e; try discriminate Es; reflexivity.
+  - reflexivity.
 Qed.
 
-Theorem visit_prints_x : forall e, wf e -> forall fuel st, 3 * size e <= fuel -> visit C rp fuel (embC e) st = GOk (ptext e, st).
+(* mapM visit_expr over a list of embedded expressions *)
+Lemma mapM_vexpr : forall f l st, (forall a, In a l -> visit C rp f (embC a) st = GOk (ptext a, st)) ->
+  mapM (visit_expr C rp (S f)) (map embC l) st = GOk (map (fun a => vxt a (ptext a)) l, st).
 Proof.
-  induction e as [a|o l IHl r IHr|o x IHx|b IHb i IHi|b IHb ty fld|c IHc t IHt f IHf|o l IHl r IHr]; intros Hw fuel st Hf; cbn [size] in Hf; cbn [wf] in Hw.
+  intros f l st. induction l as [|x r IH]; intros H; [reflexivity|]. cbn [map mapM].
+  unfold gbind at 1. rewrite (vexpr_emb f x (ptext x) st (H x (or_introl eq_refl))).
+  unfold gbind at 1. rewrite IH by (intros a Ha; apply H; right; exact Ha). reflexivity.
+Qed.
+
+Lemma size_pos : forall e, 1 <= size e.
+Proof. destruct e; cbn [size]; lia. Qed.
+
+Theorem visit_prints_x : forall n e, size e <= n -> wf e -> forall fuel st, 3 * size e <= fuel -> visit C rp fuel (embC e) st = GOk (ptext e, st).
+Proof.
+  induction n as [|n IH]; intros e Hn Hw fuel st Hf; [pose proof (size_pos e); lia|].
+  assert (IHl: forall l f, wfl l -> list_sum (map size l) <= n -> 3 * list_sum (map size l) <= f ->
+               forall a, In a l -> visit C rp f (embC a) st = GOk (ptext a, st)).
+  { intros l f Hwl Hs Hfl a Ha. pose proof (in_sum l a Ha) as Hsa. apply IH; [lia| |lia].
+    exact (proj1 (Forall_forall _ _) (wfl_Forall l Hwl) a Ha). }
+  destruct e as [a|k v ty|o l r|o x|b i|b ty fld|b args|c t f|o l r|es]; cbn [size] in Hn, Hf; cbn [wf] in Hw.
+  - destruct fuel as [|fu]; [lia|]. reflexivity.
   - destruct fuel as [|fu]; [lia|]. reflexivity.
   - destruct Hw as (Ho & Hl & Hr). destruct fuel as [|[|[|fu]]]; try lia. cbn [embC]. rewrite visit_binop.
-    unfold gbind at 1. rewrite visit_expr_emb. rewrite (IHl Hl) by lia.
+    unfold gbind at 1. rewrite (vexpr_emb (S fu) l (ptext l) st) by (apply IH; [lia|exact Hl|lia]).
     unfold gbind at 1. rewrite (cond_left_x o l st Ho Hl).
-    unfold gbind at 1. rewrite visit_expr_emb. rewrite (IHr Hr) by lia.
-    unfold gbind at 1. rewrite (cond_right_x o r st Ho Hr). unfold gret. cbn [ptext]. unfold par.
-    destruct (simple l || keepLx rp o l); destruct (simple r || keepRx rp o r); reflexivity.
+    unfold gbind at 1. rewrite (vexpr_emb (S fu) r (ptext r) st) by (apply IH; [lia|exact Hr|lia]).
+    unfold gbind at 1. rewrite (cond_right_x o r st Ho Hr). unfold gret. cbn [ptext]. unfold par, vxt.
+    destruct (simple l || keepLx rp o l) eqn:EL; destruct (simple r || keepRx rp o r) eqn:ER; cbn [negb].
+    + assert (Hcl: iscomma l = false) by (destruct l; try reflexivity; discriminate EL). assert (Hcr: iscomma r = false) by (destruct r; try reflexivity; discriminate ER).
+      rewrite Hcl, Hcr. reflexivity.
+    + assert (Hcl: iscomma l = false) by (destruct l; try reflexivity; discriminate EL). rewrite Hcl. reflexivity.
+    + assert (Hcr: iscomma r = false) by (destruct r; try reflexivity; discriminate ER). rewrite Hcr. reflexivity.
+    + reflexivity.
   - destruct Hw as (Ho & Hx). destruct (unop_not_special o Ho) as (H1 & H2 & H3). destruct fuel as [|[|[|fu]]]; try lia.
-    cbn [embC]. rewrite visit_un_raw. rewrite H1, H2, H3. unfold gbind at 1. rewrite (pus_emb fu x (ptext x) st); [reflexivity|]. apply IHx; [exact Hx|lia].
+    cbn [embC]. rewrite visit_un_raw. rewrite H1, H2, H3. unfold gbind at 1. rewrite (pus_emb fu x (ptext x) st); [reflexivity|]. apply IH; [lia|exact Hx|lia].
   - destruct Hw as (Hb & Hi). destruct fuel as [|[|[|fu]]]; try lia. cbn [embC]. rewrite visit_idx.
-    unfold gbind at 1. rewrite (pus_emb fu b (ptext b) st) by (apply IHb; [exact Hb|lia]).
-    unfold gbind at 1. rewrite (IHi Hi) by lia. reflexivity.
+    unfold gbind at 1. rewrite (pus_emb fu b (ptext b) st) by (apply IH; [lia|exact Hb|lia]).
+    unfold gbind at 1. rewrite (IH i) by (try exact Hi; lia). reflexivity.
   - destruct Hw as (Hm & Hb). destruct fuel as [|[|[|fu]]]; try lia. cbn [embC]. rewrite visit_mem.
-    unfold gbind at 1. rewrite (pus_emb fu b (ptext b) st) by (apply IHb; [exact Hb|lia]). reflexivity.
+    unfold gbind at 1. rewrite (pus_emb fu b (ptext b) st) by (apply IH; [lia|exact Hb|lia]). reflexivity.
+  - destruct Hw as (Hb & Hargs). pose proof (size_pos b) as Hpb. destruct fuel as [|[|[|fu]]]; try lia. cbn [embC]. rewrite visit_call.
+    unfold gbind at 1. rewrite (pus_emb fu b (ptext b) st) by (apply IH; [lia|exact Hb|lia]).
+    destruct args as [|a1 rest]; [reflexivity|]. unfold gbind at 1.
+    pose proof (size_pos a1) as Hpa. change (list_sum (map size (a1 :: rest))) with (size a1 + list_sum (map size rest)) in Hf, Hn.
+    rewrite visit_exprlist. unfold gbind at 1.
+    rewrite (mapM_vexpr fu (a1 :: rest) st); [reflexivity|]. apply (IHl (a1 :: rest) fu Hargs).
+    + change (list_sum (map size (a1 :: rest))) with (size a1 + list_sum (map size rest)). lia.
+    + change (list_sum (map size (a1 :: rest))) with (size a1 + list_sum (map size rest)). lia.
   - destruct Hw as (Hc & Ht & Hff). destruct fuel as [|[|[|fu]]]; try lia. cbn [embC]. rewrite visit_ternary.
-    unfold gbind at 1. rewrite visit_expr_emb. rewrite (IHc Hc) by lia.
-    unfold gbind at 1. rewrite visit_expr_emb. rewrite (IHt Ht) by lia.
-    unfold gbind at 1. rewrite visit_expr_emb. rewrite (IHf Hff) by lia. reflexivity.
-  - destruct Hw as (Ho & Hnl & Hl & Hr). destruct fuel as [|[|[|fu]]]; try lia. cbn [embC]. rewrite visit_asg.
-    unfold gbind at 1. rewrite visit_expr_emb. rewrite (IHr Hr) by lia.
-    unfold gbind at 1. rewrite (IHl Hl) by lia. rewrite is_asg_emb. unfold gret. cbn [ptext]. unfold par. reflexivity.
+    unfold gbind at 1. rewrite (vexpr_emb (S fu) c (ptext c) st) by (apply IH; [lia|exact Hc|lia]).
+    unfold gbind at 1. rewrite (vexpr_emb (S fu) t (ptext t) st) by (apply IH; [lia|exact Ht|lia]).
+    unfold gbind at 1. rewrite (vexpr_emb (S fu) f (ptext f) st) by (apply IH; [lia|exact Hff|lia]). reflexivity.
+  - destruct Hw as (Ho & Hnl & Hncl & Hl & Hr). destruct fuel as [|[|[|fu]]]; try lia. cbn [embC]. rewrite visit_asg.
+    unfold gbind at 1. rewrite (vexpr_emb (S fu) r (ptext r) st) by (apply IH; [lia|exact Hr|lia]).
+    unfold gbind at 1. rewrite (IH l) by (try exact Hl; lia). rewrite is_asg_emb. unfold gret. cbn [ptext]. unfold par, vxt.
+    destruct (isasg r) eqn:Ea; [|reflexivity]. destruct r; try discriminate Ea. reflexivity.
+  - destruct Hw as (Hlen & Hes). destruct fuel as [|[|fu]]; try lia.
+    cbn [embC]. rewrite visit_exprlist. unfold gbind at 1.
+    rewrite (mapM_vexpr fu es st); [reflexivity|]. apply (IHl es fu Hes); lia.
 Qed.
 End GX.
 
@@ -171,16 +235,23 @@ Proof.
   destruct (punct_kind_l o) as [k|]; [exists k; reflexivity|discriminate Hk].
 Qed.
 
+(* identifiers and constants are spelled without blanks *)
 Fixpoint ids_nb (e: ex) : Prop :=
   match e with
   | XId a => despace a = a
+  | XConst _ v _ => despace v = v
   | XBin _ l r => ids_nb l /\ ids_nb r
   | XUn _ x => ids_nb x
   | XIdx b i => ids_nb b /\ ids_nb i
   | XMem b _ f => despace f = f /\ ids_nb b
+  | XCall b args => ids_nb b /\ (fix nl (l: list ex) : Prop := match l with [] => True | x :: r => ids_nb x /\ nl r end) args
   | XCond c t f => ids_nb c /\ ids_nb t /\ ids_nb f
   | XAsg _ l r => ids_nb l /\ ids_nb r
+  | XComma es => (fix nl (l: list ex) : Prop := match l with [] => True | x :: r => ids_nb x /\ nl r end) es
   end.
+Definition nbl (l: list ex) : Prop := (fix nl (l: list ex) : Prop := match l with [] => True | x :: r => ids_nb x /\ nl r end) l.
+Lemma nbl_Forall : forall l, nbl l -> Forall ids_nb l.
+Proof. induction l as [|x r IH]; intros H; [constructor|]. destruct H as [H1 H2]. constructor; [exact H1|apply IH; exact H2]. Qed.
 
 Definition spell (l: list (kind * str)) : str := concat (map snd l).
 Lemma spell_app : forall a b, spell (a ++ b) = spell a ++ spell b.
@@ -190,56 +261,93 @@ Proof. intros x. unfold parkv, par. change ((K_LPAREN, s2l "(") :: x ++ [(K_RPAR
 Lemma despace_par : forall x, despace (par x) = par (despace x).
 Proof. intros x. unfold par. rewrite !despace_app. reflexivity. Qed.
 
-(* the generated text, blanks removed, is the concatenation of the spellings of [xt rp e] *)
-Theorem ptext_tokens : forall rp e, wf e -> ids_nb e -> despace (ptext rp e) = spell (xt rp e).
+Lemma vx_text : forall e t k, despace t = spell k -> despace (vxt e t) = spell (vx e k).
+Proof. intros e t k H. unfold vxt, vx. destruct (iscomma e); [rewrite despace_par, spell_parkv, H; reflexivity|exact H]. Qed.
+Lemma wrap_text : forall e t k, despace t = spell k -> despace (wrapt e t) = spell (wrap e k).
+Proof. intros e t k H. unfold wrapt, wrap. destruct (simple e); [exact H|]. rewrite despace_par, spell_parkv, (vx_text e t k H). reflexivity. Qed.
+
+Lemma join_text : forall (ts: list str) (ks: list (list (kind * str))), Forall2 (fun t k => despace t = spell k) ts ks ->
+  despace (join_str (s ", ") ts) = spell (commas ks).
 Proof.
-  intros rp. induction e as [a|o l IHl r IHr|o x IHx|b IHb i IHi|b IHb ty fld|c IHc t IHt f IHf|o l IHl r IHr]; intros Hw Hn; cbn [wf] in Hw; cbn [ids_nb] in Hn.
+  intros ts ks H. induction H as [|t k ts ks Htk H IH]; [reflexivity|].
+  destruct H as [|t2 k2 ts2 ks2 Htk2 H2]; [cbn; exact Htk|].
+  change (join_str (s ", ") (t :: t2 :: ts2)) with (t ++ s ", " ++ join_str (s ", ") (t2 :: ts2)).
+  change (commas (k :: k2 :: ks2)) with (k ++ (K_COMMA, s2l ",") :: commas (k2 :: ks2)).
+  rewrite !despace_app, spell_app. change ((K_COMMA, s2l ",") :: ?y) with ([(K_COMMA, s2l ",")] ++ y). rewrite spell_app.
+  rewrite IH, Htk. reflexivity.
+Qed.
+
+(* the generated text, blanks removed, is the concatenation of the spellings of [xt rp e] *)
+Theorem ptext_tokens : forall rp n e, size e <= n -> wf e -> ids_nb e -> despace (ptext rp e) = spell (xt rp e).
+Proof.
+  intros rp. induction n as [|n IH]; intros e Hsz Hw Hn; [pose proof (size_pos e); lia|].
+  assert (IHl: forall l, wfl l -> nbl l -> list_sum (map size l) <= n ->
+               Forall2 (fun t k => despace t = spell k) (map (fun a => vxt a (ptext rp a)) l) (map (fun a => vx a (xt rp a)) l)).
+  { induction l as [|x r IHr]; intros Hwl Hnl Hs; [constructor|]. destruct Hwl as [Hwx Hwr]. destruct Hnl as [Hnx Hnr].
+    change (list_sum (map size (x :: r))) with (size x + list_sum (map size r)) in Hs. cbn [map]. constructor.
+    - apply vx_text. apply IH; [lia|exact Hwx|exact Hnx].
+    - apply IHr; [exact Hwr|exact Hnr|lia]. }
+  destruct e as [a|k v ty|o l r|o x|b i|b ty fld|b args|c t f|o l r|es]; cbn [size] in Hsz; cbn [wf] in Hw; cbn [ids_nb] in Hn.
+  - cbn. rewrite app_nil_r. exact Hn.
   - cbn. rewrite app_nil_r. exact Hn.
   - destruct Hw as (Ho & Hl & Hr). destruct Hn as (Hnl & Hnr). destruct (binop_punct o Ho) as [k Hk].
+    assert (El: despace (ptext rp l) = spell (xt rp l)) by (apply IH; [lia|exact Hl|exact Hnl]).
+    assert (Er: despace (ptext rp r) = spell (xt rp r)) by (apply IH; [lia|exact Hr|exact Hnr]).
     cbn [ptext xt]. rewrite !despace_app, spell_app. change ((opk o, o) :: ?y) with ([(opk o, o)] ++ y). rewrite spell_app.
     change (despace (s " ")) with (@nil N). cbn [app]. rewrite (punct_noblank o k Hk).
     change (spell [(opk o, o)]) with (o ++ []). rewrite app_nil_r.
-    assert (EL: despace (if simple l || keepLx rp o l then ptext rp l else par (ptext rp l)) = spell (if keepLx rp o l then xt rp l else wrap l (xt rp l))).
-    { unfold wrap. destruct (keepLx rp o l); [rewrite orb_true_r; apply IHl; assumption|]. rewrite orb_false_r.
-      destruct (simple l); [apply IHl; assumption|]. rewrite despace_par, spell_parkv, (IHl Hl Hnl). reflexivity. }
-    assert (ER: despace (if simple r || keepRx rp o r then ptext rp r else par (ptext rp r)) = spell (if keepRx rp o r then xt rp r else wrap r (xt rp r))).
-    { unfold wrap. destruct (keepRx rp o r); [rewrite orb_true_r; apply IHr; assumption|]. rewrite orb_false_r.
-      destruct (simple r); [apply IHr; assumption|]. rewrite despace_par, spell_parkv, (IHr Hr Hnr). reflexivity. }
+    assert (EL: despace (if simple l || keepLx rp o l then ptext rp l else par (vxt l (ptext rp l))) = spell (if keepLx rp o l then xt rp l else wrap l (xt rp l))).
+    { unfold wrap. destruct (keepLx rp o l); [rewrite orb_true_r; exact El|]. rewrite orb_false_r.
+      destruct (simple l); [exact El|]. rewrite despace_par, spell_parkv, (vx_text l _ _ El). reflexivity. }
+    assert (ER: despace (if simple r || keepRx rp o r then ptext rp r else par (vxt r (ptext rp r))) = spell (if keepRx rp o r then xt rp r else wrap r (xt rp r))).
+    { unfold wrap. destruct (keepRx rp o r); [rewrite orb_true_r; exact Er|]. rewrite orb_false_r.
+      destruct (simple r); [exact Er|]. rewrite despace_par, spell_parkv, (vx_text r _ _ Er). reflexivity. }
     apply f_equal2; [exact EL|]. apply (f_equal (app o)). exact ER.
   - destruct Hw as (Ho & Hx). unfold unop_ok in Ho. destruct (punct_kind_l o) as [k|] eqn:Hk; [|discriminate Ho].
+    assert (Ex: despace (ptext rp x) = spell (xt rp x)) by (apply IH; [lia|exact Hx|exact Hn]).
     cbn [ptext xt]. rewrite despace_app. change ((opk o, o) :: ?y) with ([(opk o, o)] ++ y). rewrite spell_app.
-    rewrite (punct_noblank o k Hk). change (spell [(opk o, o)]) with (o ++ []). rewrite app_nil_r. f_equal.
-    unfold wrapt, wrap. destruct (simple x); [apply IHx; assumption|]. rewrite despace_par, spell_parkv, (IHx Hx Hn). reflexivity.
-  - destruct Hw as (Hb & Hi). destruct Hn as (Hnb & Hni). cbn [ptext xt]. rewrite !despace_app, spell_app.
-    change ((K_LBRACKET, s2l "[") :: ?y) with ([(K_LBRACKET, s2l "[")] ++ y). rewrite !spell_app. rewrite (IHi Hi Hni).
-    assert (EB: despace (wrapt b (ptext rp b)) = spell (wrap b (xt rp b))).
-    { unfold wrapt, wrap. destruct (simple b); [apply IHb; assumption|]. rewrite despace_par, spell_parkv, (IHb Hb Hnb). reflexivity. }
-    rewrite EB. reflexivity.
+    rewrite (punct_noblank o k Hk). change (spell [(opk o, o)]) with (o ++ []). rewrite app_nil_r. f_equal. apply wrap_text. exact Ex.
+  - destruct Hw as (Hb & Hi). destruct Hn as (Hnb & Hni).
+    assert (Eb: despace (ptext rp b) = spell (xt rp b)) by (apply IH; [lia|exact Hb|exact Hnb]).
+    assert (Ei: despace (ptext rp i) = spell (xt rp i)) by (apply IH; [lia|exact Hi|exact Hni]).
+    cbn [ptext xt]. rewrite !despace_app, spell_app.
+    change ((K_LBRACKET, s2l "[") :: ?y) with ([(K_LBRACKET, s2l "[")] ++ y). rewrite !spell_app. rewrite Ei, (wrap_text b _ _ Eb). reflexivity.
   - destruct Hw as (Hm & Hb). destruct Hn as (Hnf & Hnb). unfold memop_ok in Hm. destruct (punct_kind_l ty) as [k|] eqn:Hk; [|discriminate Hm].
-    cbn [ptext xt]. rewrite !despace_app, spell_app. rewrite (punct_noblank ty k Hk), Hnf.
-    assert (EB: despace (wrapt b (ptext rp b)) = spell (wrap b (xt rp b))).
-    { unfold wrapt, wrap. destruct (simple b); [apply IHb; assumption|]. rewrite despace_par, spell_parkv, (IHb Hb Hnb). reflexivity. }
-    rewrite EB. f_equal. unfold spell. cbn [map concat snd]. rewrite ?app_nil_r. reflexivity.
-  - destruct Hw as (Hc & Ht & Hf). destruct Hn as (Hnc & Hnt & Hnf). cbn [ptext xt]. rewrite !despace_app.
-    rewrite (IHc Hc Hnc), (IHt Ht Hnt), (IHf Hf Hnf).
+    assert (Eb: despace (ptext rp b) = spell (xt rp b)) by (apply IH; [lia|exact Hb|exact Hnb]).
+    cbn [ptext xt]. rewrite !despace_app, spell_app. rewrite (punct_noblank ty k Hk), Hnf, (wrap_text b _ _ Eb).
+    f_equal. unfold spell. cbn [map concat snd]. rewrite ?app_nil_r. reflexivity.
+  - destruct Hw as (Hb & Hargs). destruct Hn as (Hnb & Hnargs).
+    assert (Eb: despace (ptext rp b) = spell (xt rp b)) by (apply IH; [lia|exact Hb|exact Hnb]).
+    cbn [ptext xt]. rewrite !despace_app, spell_app. change ((K_LPAREN, s2l "(") :: ?y) with ([(K_LPAREN, s2l "(")] ++ y). rewrite !spell_app.
+    rewrite (wrap_text b _ _ Eb). rewrite (join_text _ _ (IHl args Hargs Hnargs ltac:(lia))). reflexivity.
+  - destruct Hw as (Hc & Ht & Hf). destruct Hn as (Hnc & Hnt & Hnf).
+    assert (Ec: despace (ptext rp c) = spell (xt rp c)) by (apply IH; [lia|exact Hc|exact Hnc]).
+    assert (Et: despace (ptext rp t) = spell (xt rp t)) by (apply IH; [lia|exact Ht|exact Hnt]).
+    assert (Ef: despace (ptext rp f) = spell (xt rp f)) by (apply IH; [lia|exact Hf|exact Hnf]).
+    cbn [ptext xt]. rewrite !despace_app. rewrite (vx_text c _ _ Ec), (vx_text t _ _ Et), (vx_text f _ _ Ef).
     rewrite spell_app. change ((K_CONDOP, s2l "?") :: ?y) with ([(K_CONDOP, s2l "?")] ++ y). rewrite spell_app.
     rewrite spell_app. change ((K_COLON, s2l ":") :: ?y) with ([(K_COLON, s2l ":")] ++ y). rewrite spell_app. rewrite !spell_parkv.
     unfold par. rewrite <- !app_assoc. reflexivity.
-  - destruct Hw as (Ho & Hnl & Hl & Hr). destruct Hn as (Hnll & Hnr). unfold asgop_ok in Ho. destruct (punct_kind_l o) as [k|] eqn:Hk; [|discriminate Ho].
+  - destruct Hw as (Ho & Hnl & Hncl & Hl & Hr). destruct Hn as (Hnll & Hnr). unfold asgop_ok in Ho. destruct (punct_kind_l o) as [k|] eqn:Hk; [|discriminate Ho].
+    assert (El: despace (ptext rp l) = spell (xt rp l)) by (apply IH; [lia|exact Hl|exact Hnll]).
+    assert (Er: despace (ptext rp r) = spell (xt rp r)) by (apply IH; [lia|exact Hr|exact Hnr]).
     cbn [ptext xt]. rewrite !despace_app, spell_app. change ((opk o, o) :: ?y) with ([(opk o, o)] ++ y). rewrite spell_app.
     change (despace (s " ")) with (@nil N). cbn [app]. rewrite (punct_noblank o k Hk). change (spell [(opk o, o)]) with (o ++ []). rewrite app_nil_r.
-    rewrite (IHl Hl Hnll). destruct (isasg r); [rewrite despace_par, spell_parkv|]; rewrite (IHr Hr Hnr); reflexivity.
+    rewrite El. destruct (isasg r); [rewrite despace_par, spell_parkv, Er|rewrite (vx_text r _ _ Er)]; reflexivity.
+  - destruct Hw as (Hlen & Hes). cbn [ptext xt]. apply join_text. apply IHl; [exact Hes|exact Hn|lia].
 Qed.
 
-(* ---- the theorems apply to something: `a[i].f = -b * (c ? d : e)` ---- *)
+(* ---- the theorems apply to something: `a[i].f = -b * (c ? d : e), g(1, (x, y))` ---- *)
 Definition ex_x : ex :=
-  XAsg (s2l "=") (XMem (XIdx (XId (s2l "a")) (XId (s2l "i"))) (s2l ".") (s2l "f"))
-       (XBin (s2l "*") (XUn (s2l "-") (XId (s2l "b"))) (XCond (XId (s2l "c")) (XId (s2l "d")) (XId (s2l "e")))).
+  XComma [XAsg (s2l "=") (XMem (XIdx (XId (s2l "a")) (XId (s2l "i"))) (s2l ".") (s2l "f"))
+            (XBin (s2l "*") (XUn (s2l "-") (XId (s2l "b"))) (XCond (XId (s2l "c")) (XId (s2l "d")) (XId (s2l "e"))));
+          XCall (XId (s2l "g")) [XConst K_INT_CONST_DEC (s2l "1") (s2l "int"); XComma [XId (s2l "x"); XId (s2l "y")]]].
 Example expression_example :
   wf ex_x /\ ids_nb ex_x /\
-  visit nat false 40 (embC nat ex_x) 0%Z = GOk (s2l "a[i].f = (-b) * ((c) ? (d) : (e))", 0%Z) /\
+  visit nat false 80 (embC nat ex_x) 0%Z = GOk (s2l "a[i].f = (-b) * ((c) ? (d) : (e)), g(1, (x, y))", 0%Z) /\
   map fst (xt false ex_x) = [K_ID; K_LBRACKET; K_ID; K_RBRACKET; K_PERIOD; K_ID; K_EQUALS; K_LPAREN; K_MINUS; K_ID; K_RPAREN; K_TIMES;
-                             K_LPAREN; K_LPAREN; K_ID; K_RPAREN; K_CONDOP; K_LPAREN; K_ID; K_RPAREN; K_COLON; K_LPAREN; K_ID; K_RPAREN; K_RPAREN].
+                             K_LPAREN; K_LPAREN; K_ID; K_RPAREN; K_CONDOP; K_LPAREN; K_ID; K_RPAREN; K_COLON; K_LPAREN; K_ID; K_RPAREN; K_RPAREN;
+                             K_COMMA; K_ID; K_LPAREN; K_INT_CONST_DEC; K_COMMA; K_LPAREN; K_ID; K_COMMA; K_ID; K_RPAREN; K_RPAREN].
 Proof.
-  split; [cbn; repeat split; solve [reflexivity | discriminate]|]. split; [cbn; repeat split|]. split; vm_compute; reflexivity.
+  split; [cbn; repeat split; solve [reflexivity | discriminate | lia]|]. split; [cbn; repeat split|]. split; vm_compute; reflexivity.
 Qed.
